@@ -20,7 +20,7 @@
      index_wid o ct sup            identity setting of the index in use: the supplied index's, else the
                                    embedded index's, else (generated on open) StoreIdentityCIDs itself *)
 From GoCar Require Import Bytes Varint Cid Header Frame V2Header Scan Index Store ReadOnly.
-From GoCarProofs Require Import HeaderFacts ReadOnlyFacts ReadOnlyRefine ReadOnlyOpen ReadOnlyMain.
+From GoCarProofs Require Import HeaderFacts ReadOnlyFacts ReadOnlyRefine ReadOnlyOpen ReadOnlyMain ReadOnlyClose.
 
 (* The read-only blockstore.  For every constructed archive within the limits of the options it is
    opened with (any ro, any sections incl. duplicates and hash-equal ones, null padding only with
@@ -173,6 +173,65 @@ Theorem C07_guard_same_setting :
     negb (q_storeid o && is_identity kp) || index_wid o ct (Some og) = true.
 Proof. exact id_guard_same_setting. Qed.
 Print Assumptions C07_guard_same_setting.
+
+(* Histories with Close (read-only blockstore).  ss_run s ops = the answers of any sequence of
+   Has / Get / GetSize / AllKeysChan / Roots / Close operations on the opened store (mmap = Close also closes
+   the backing, as with OpenReadOnly).  run_spec (proofs/ReadOnlyClose.v) requires of the i-th answer, with
+   closed = "a Close occurs among the first i operations":
+     Has key      identity short cut -> true; else closed -> errClosed; else the scan's verdict
+     Get key      identity short cut -> the digest; else closed -> errClosed; else the bytes of a carrying
+                  section / not-found (get_spec, as in C07_ro_refines_scan_partial)
+     GetSize key  identity key -> len(digest); else closed -> errClosed; else the size / not-found
+     AllKeysChan  closed -> errClosed, else the scan's CID sequence without error
+     Roots        the roots -- also on a closed store (it never checks), unless Close closed the backing
+     Close        nil, every time
+   (Has / Get under the same guard as above.) *)
+Theorem C07_history_with_close_partial :
+  forall (o : qopts) (ct : container) (ro : option (list bytes)) (bs : list block) (npad : N) (file : bytes)
+         (sup : option qopts) (si : option ridx),
+    car_file ct ro bs npad = Some file ->
+    roots_ok (hdr_roots ro) ->
+    (blen (enc_header ro 1) <= q_maxh o /\
+     Forall (rblock_ok (q_maxs o) (q_maxcid o)) bs /\
+     (npad = 0 \/ q_zeof o = true)) ->
+    blen file < two63 ->
+    (q_codec o = codec_sorted \/ q_codec o = codec_mh_sorted) ->
+    match ct with
+    | CV1 => True
+    | CV2 chi clo _ _ emb => chi < two64 /\ clo < two64 /\ 10 <= q_maxh o /\
+                             (emb <> None -> N.of_nat (length bs) < two31)
+    end ->
+    match sup with
+    | None => si = None
+    | Some og =>
+        (blen (enc_header ro 1) <= q_maxh og /\
+         Forall (rblock_ok (q_maxs og) (q_maxcid og)) bs /\
+         (npad = 0 \/ q_zeof og = true)) /\
+        exists i, gen_flat dec_header_canon og 0 (payload_np ro bs npad) = Ok i /\ si = Some i
+    end ->
+    exists s, ro_open dec_header_canon o file si = Ok s /\
+      forall mmap ops, run_spec o (index_wid o ct sup) ro bs false mmap ops
+                                (ss_run dec_header_canon (mkss s false mmap) ops).
+Proof. exact C07_history_full. Qed.
+Print Assumptions C07_history_with_close_partial.
+
+(* Index offsets that do not fit int64 (hand-crafted or damaged index): FindCid only ever visits candidate
+   offsets below 2^63 -- nothing is read from a wrapped-around position -- and when the walk reaches a
+   larger one without having found the key, the query fails (io.EOF behind a CARv2's SectionReader, an
+   error from a plain ReaderAt); it never answers with a block. *)
+Theorem C07_candidates_visited_are_int64 :
+  forall offs, Forall (fun off => off < two63) (fst (int64_prefix offs)).
+Proof. exact int64_prefix_bound. Qed.
+Print Assumptions C07_candidates_visited_are_int64.
+
+Theorem C07_offset_beyond_int64_is_an_error :
+  forall s key kp rb,
+    snd (int64_prefix (ridx_getall (s_idx s) kp)) = true ->
+    find_cid (s_view s) (fst (int64_prefix (ridx_getall (s_idx s) kp))) key kp
+             (q_whole (s_opts s)) (q_zeof (s_opts s)) (q_maxs (s_opts s)) rb = Err ENotFound ->
+    ro_find s key kp rb = Err (if s_v2 s then EEof else EOther).
+Proof. exact ro_find_beyond_int64. Qed.
+Print Assumptions C07_offset_beyond_int64_is_an_error.
 
 (* The unguarded statement is false of the (faithful model of the) unchanged code: *)
 (* (1) a valid CARv2 whose embedded index has no identity entries, opened with StoreIdentityCIDs:
